@@ -1,6 +1,7 @@
 import FluteModel.Lemmas.SpecLct
 import FluteModel.Spec.Fti
 import FluteModel.Alc
+import FluteModel.Lemmas.Ntp
 /- reading fields out of `beBytes n X`, and the spec encoder as `beBytes` (core Lean only) -/
 namespace Flute.Bytes
 open Flute
@@ -103,3 +104,125 @@ macro "fields_eq" : tactic => `(tactic|
    all_goals first | omega | (apply Flute.Spec.sub_congr <;> omega)))
 
 end Flute
+
+namespace Flute.Fti
+open Flute Flute.Bytes Flute.Lct Flute.Fti Flute.Alc Flute.Spec
+
+/-- what `AlcRaptorQ::get_fti` / `AlcRaptor::get_fti` do with the decoded values -/
+def raptorCheck (fec : Nat) (ss : SchemeSpecific) (F T Z Al : Nat) : Out (Oti × Nat) :=
+  if T = 0 then .err else
+  if Z = 0 then .err else
+  if Al = 0 then .err else
+  if T % Al ≠ 0 then .err else
+  .ok (otiOf fec 0 (divCeil (divCeil F Z) T % 2^32) T 0 ss, F)
+
+theorem getFtiRaptorQ_core (X F T Z N Al : Nat)
+    (h0 : X / 2^48 % 2^64 / 2^24 = F) (h1 : X / 2^48 % 2^16 = T) (h2 : X / 2^40 % 2^8 = Z)
+    (h3 : X / 2^24 % 2^16 = N) (h4 : X / 2^16 % 2^8 = Al) :
+    getFtiRaptorQ (beBytes 16 X) = raptorCheck 6 (.raptorq Z N Al) F T Z Al := by
+  unfold getFtiRaptorQ raptorCheck otiOf
+  parse_bebytes
+  simp only [Nat.reducePow] at h0 h1 h2 h3 h4
+  rewrite [h0, h1, h2, h3, h4]
+  rfl
+
+theorem getFtiRaptor_core (X F T Z N Al : Nat)
+    (h0 : X / 2^48 % 2^64 / 2^16 = F) (h1 : X / 2^32 % 2^16 = T) (h2 : X / 2^16 % 2^16 = Z)
+    (h3 : X / 2^8 % 2^8 = N) (h4 : X % 2^8 = Al) :
+    getFtiRaptor (beBytes 16 X) = raptorCheck 1 (.raptor Z N Al) F T Z Al := by
+  unfold getFtiRaptor raptorCheck otiOf
+  parse_bebytes
+  simp only [Nat.reducePow] at h0 h1 h2 h3 h4
+  rewrite [h0, h1, h2, h3, h4]
+  rfl
+end Flute.Fti
+
+namespace Flute.Fti
+open Flute Flute.Bytes Flute.Lct Flute.Fti Flute.Alc Flute.Spec
+
+/-- `get_fec_payload_id` looks only at the payload-id window of the datagram -/
+theorem getPayloadId_window (oti : Oti) (pre w post : List Nat) :
+    getPayloadId oti (pre ++ (w ++ post)) pre.length (pre.length + w.length) = pidOfBytes oti w := by
+  unfold getPayloadId
+  rw [Flute.Lct.slice_mid pre w post _ _ rfl rfl, Out.bind_ok]
+
+theorem pidOfBytes_beBytes4 (oti : Oti) (X : Nat) (h : oti.fecId ≠ RS28US) :
+    pidOfBytes oti (beBytes 4 X) =
+      (let v := X % 2^32
+       if oti.fecId = NOCODE then .ok { sbn := v / 2^16, esi := v % 2^16, sbl := none }
+       else if oti.fecId = RS28 then .ok { sbn := v / 2^8, esi := v % 2^8, sbl := none }
+       else if oti.fecId = RS2M then
+         (if rsM oti ≥ 32 then .err else .ok { sbn := v / 2^(rsM oti), esi := v % 2^(rsM oti), sbl := none })
+       else if oti.fecId = RAPTORQ then .ok { sbn := v / 2^24, esi := v % 2^24, sbl := none }
+       else if oti.fecId = RAPTOR then .ok { sbn := v / 2^16, esi := v % 2^16, sbl := none }
+       else .panic "not a FECEncodingID") := by
+  unfold pidOfBytes
+  rw [if_neg h, length_beBytes, if_neg (by omega), beVal_beBytes]
+
+theorem pidOfBytes_beBytes8 (oti : Oti) (X : Nat) (h : oti.fecId = RS28US) :
+    pidOfBytes oti (beBytes 8 X) =
+      .ok { sbn := X % 2^64 / 2^32 % 2^32, esi := X % 2^64 % 2^16, sbl := some (X % 2^64 / 2^16 % 2^16) } := by
+  unfold pidOfBytes
+  rw [if_pos h, length_beBytes, if_neg (by omega), beVal_beBytes]
+
+theorem encode_fpidRs2m (m sbn esi : Nat) (hm : m ≤ 32) :
+    Spec.encode (fpidRs2m m sbn esi) = beBytes 4 (sbn * 2 ^ m + esi) := by
+  rw [spec_encode_eq]
+  simp only [fpidRs2m, width, pack, Nat.add_zero, Nat.pow_zero, Nat.mul_one]
+  have : (32 - m + m) / 8 = 4 := by omega
+  rw [this]
+
+end Flute.Fti
+
+namespace Flute.Alc
+open Flute Flute.Bytes Flute.Lct Flute.Fti Flute.Alc Flute.Spec Flute.Ntp
+
+theorem fdt_word (v id : Nat) (hv : v < 16) (hid : id < 2 ^ 20) :
+    (192 <<< 24) ||| (v <<< 20) ||| id = 192 * 2 ^ 24 + v * 2 ^ 20 + id := by
+  rw [Nat.or_comm, Nat.or_comm (192 <<< 24), ← Nat.or_assoc, or_shl _ _ 20 hid,
+      or_shl _ _ 24 (by omega)]
+  omega
+
+end Flute.Alc
+
+namespace Flute.Alc
+open Flute Flute.Bytes Flute.Lct Flute.Fti Flute.Alc Flute.Spec Flute.Ntp
+
+/-- `parse_sct` on a 12-byte extension given as a number -/
+theorem parseSct_core (X secs frac : Nat) (hu : X / 2^72 % 256 = 192) (h1 : X / 2^32 % 2^32 = secs)
+    (h2 : X % 2^32 = frac) :
+    parseSct (beBytes 12 X) = (ntpToSystemTime (secs * 2^32 + frac)).bind fun t => .ok (some t) := by
+  unfold parseSct
+  simp only [Nat.reducePow] at hu h1 h2 ⊢
+  rewrite [length_beBytes, if_neg (by omega), idx_beBytes _ _ _ (by omega), Out.bind_ok]
+  simp only [Nat.reduceSub, Nat.reducePow]
+  rewrite [hu]
+  simp only [Nat.reduceDiv, Nat.reduceMod, Nat.reduceAdd, Nat.reduceMul, ne_eq, not_true_eq_false, if_false,
+    Nat.reduceEqDiff, if_true]
+  rewrite [fld_beBytes _ _ _ _ (by omega) (by omega), Out.bind_ok,
+    fld_beBytes _ _ _ _ (by omega) (by omega), Out.bind_ok]
+  simp only [Nat.reduceSub, Nat.reducePow, Nat.pow_zero, Nat.div_one]
+  rewrite [h1, h2]
+  rfl
+end Flute.Alc
+
+namespace Flute.Alc
+open Flute Flute.Bytes Flute.Lct Flute.Fti Flute.Alc Flute.Spec Flute.Ntp
+
+theorem append_congr {a b c d : List Nat} (h1 : a = c) (h2 : b = d) : a ++ b = c ++ d := by rw [h1, h2]
+theorem pushSct_eq (data : List Nat) (us ntp : Nat) (h1 : systemTimeToNtp us = .ok ntp)
+    (h2 : ntp < 18446744073709551616) :
+    pushSct data us = extendInc data (Spec.encode (extTimeSctDiagram (ntp / 4294967296) (ntp % 4294967296))) 3 := by
+  unfold pushSct
+  rewrite [h1, rsBind_ok]
+  simp only [Nat.reducePow]
+  spec_bytes
+  rewrite [Nat.div_add_mod' ntp 4294967296]
+  refine congrArg (fun x => extendInc data x 3) ?_
+  rewrite [beBytes_add 4 8]
+  apply append_congr
+  · apply beBytes_congr; simp only [Nat.reducePow]; omega
+  · apply beBytes_congr; simp only [Nat.reducePow]; omega
+
+
+end Flute.Alc
